@@ -89,3 +89,43 @@ __CPROVER_assigns(self->hllByteArr_[slotNo >> 1])
 __CPROVER_ensures(self->hllByteArr_[slotNo >> 1] == ((slotNo & 1) ? (uint8_t)((__CPROVER_old(self->hllByteArr_[slotNo >> 1]) & 0x0f) | ((newValue & 0xf) << 4))
                                                                   : (uint8_t)((__CPROVER_old(self->hllByteArr_[slotNo >> 1]) & 0xf0) | (newValue & 0xf))))
 '''
+
+
+def keep_only_loop(keep, total, label="excluded by the case precondition of this job"):
+    """structural rule for case-split jobs: the innermost { } block enclosing every loop other than loop #keep (ordinals in textual
+    order, `total` loops expected) is replaced by an assertion that it is unreachable.  The job's case precondition must make those
+    blocks dead; the assertion is then a proved obligation, so nothing is assumed."""
+    import sys, os
+    sys.path.insert(0, os.path.join(os.path.dirname(__file__), "..", "vf"))
+    import extract
+    def rule(body):
+        lps = extract.loop_positions(body)
+        if len(lps) != total:
+            return body, 0
+        import re
+        # positions of the loop keywords: search backwards from insert position for the keyword start
+        blocks = []
+        for n, (kind, pos) in enumerate(lps, 1):
+            if n == keep:
+                continue
+            # find enclosing '{' by scanning backwards with depth counting
+            depth = 0
+            j = pos
+            # move j to the loop keyword start (before the header)
+            kw = max(body.rfind("for", 0, pos), body.rfind("while", 0, pos), body.rfind("do", 0, pos))
+            j = kw
+            while j >= 0:
+                c = body[j]
+                if c == "}":
+                    depth += 1
+                elif c == "{":
+                    if depth == 0:
+                        break
+                    depth -= 1
+                j -= 1
+            cb = extract.match_close(body, j, "{", "}")
+            blocks.append((j, cb))
+        for (ob, cb) in sorted(set(blocks), reverse=True):
+            body = body[:ob] + '{ __CPROVER_assert(0, "%s"); }' % label + body[cb + 1:]
+        return body, len(set(blocks))
+    return rule
